@@ -2,6 +2,7 @@ package gltf
 
 import (
 	"image/color"
+	"reflect"
 
 	"github.com/EliCDavis/polyform/math/quaternion"
 	"github.com/EliCDavis/polyform/math/trs"
@@ -135,6 +136,13 @@ func (pm *PolyformMaterial) equal(other *PolyformMaterial) bool {
 			return false
 		}
 	}
+	if !pm.NormalTexture.equal(other.NormalTexture) ||
+		!pm.OcclusionTexture.equal(other.OcclusionTexture) {
+		return false
+	}
+	if len(pm.Extras) != 0 || len(other.Extras) != 0 {
+		return reflect.DeepEqual(pm.Extras, other.Extras)
+	}
 	return true
 }
 
@@ -149,6 +157,15 @@ func (pt *PolyformTexture) equal(other *PolyformTexture) bool {
 
 	if pt.URI != other.URI {
 		return false
+	}
+
+	if len(pt.Extensions) != len(other.Extensions) {
+		return false
+	}
+	for i, ext := range pt.Extensions {
+		if !reflect.DeepEqual(ext, other.Extensions[i]) {
+			return false
+		}
 	}
 
 	if pt.Sampler == other.Sampler {
@@ -180,6 +197,21 @@ func (pt *PolyformNormal) equal(other *PolyformNormal) bool {
 		return false
 	}
 	return float64PtrsEqual(pt.Scale, other.Scale)
+}
+
+func (po *PolyformOcclusion) equal(other *PolyformOcclusion) bool {
+	if po == other {
+		return true
+	}
+
+	if po == nil || other == nil {
+		return false
+	}
+
+	if !po.PolyformTexture.equal(other.PolyformTexture) {
+		return false
+	}
+	return float64PtrsEqual(po.Strength, other.Strength)
 }
 
 func (pmr *PolyformPbrMetallicRoughness) equal(other *PolyformPbrMetallicRoughness) bool {
